@@ -15,6 +15,11 @@ next to the process' VmSize. Workload families:
   faults  : the large shapes (round = 8 MiB, 3 MiB, 5 MiB allocated and freed in turn; large; ladder; mixed) under the
             ptrace monitor sysmon, which makes mremap and/or munmap FAIL (all calls, or the k-th call) while the
             allocator trims and releases: the books must stay consistent with what the kernel really maps
+  foreign : the harness itself maps PROT_NONE regions (16 MiB each, or 4 KiB..16 MiB; kept / a ring of 6 / unmapped after the
+            repetition) before every repetition (and at every sample point of steady phases), exactly where the heap's next
+            mapping would have been adjacent, so the heap becomes a list of NON-ADJACENT segments; every repetition ends with
+            one block of 1.5 x its peak (>= 3 MiB) allocated and freed, i.e. more than the trim threshold freed at the top;
+            200-2000 repetitions, all free orders; VmSize is taken net of the foreign mappings (tracked exactly)
 Rules, on logical quantities only:
   non-growth: held(i) <= max(held(0..W)) + S + F for all i >= W      (W = 3, S = 2 MiB trim threshold + 64 KiB)
               F = 2*peak_live: what is still mapped at quiescence legitimately wanders between ~0 and the peak
@@ -39,6 +44,7 @@ PAGE = 4096
 W = 3
 S = 2 * 1024 * 1024 + 64 * 1024
 STACK = 2 * 1024 * 1024 + 64 * 1024
+FOREIGN_POLICIES = ["keep16", "keep", "ring", "transient"]
 SHAPES = ["small", "large", "mixed", "overaligned", "ladder", "round", "aladder", "vecalign", "shrinkkeep", "vecshrink"]
 PROBE_ONLY = {"vecalign", "vecshrink"}  # Vec needs the global allocator
 # shrink-and-keep: also sampled with every shrunk block alive; with threads the blocks are handed to main (sampled after the join)
@@ -84,7 +90,8 @@ def parse(out):
             if len(p) >= 5:
                 vm.append(int(p[4]) * PAGE)
         elif p[0] == "S" and len(p) >= 4:
-            summ = (int(p[1]), int(p[2]), int(p[3]), int(p[4]) if len(p) >= 5 else 0)
+            summ = (int(p[1]), int(p[2]), int(p[3]), int(p[4]) if len(p) >= 5 else 0,
+                    int(p[5]) if len(p) >= 6 else 0, int(p[6]) if len(p) >= 7 else 0)
     return held, vm, failed, summ
 
 
@@ -103,6 +110,8 @@ def slope_last_half(series):
 def family(wl):
     if wl.get("inject"):
         return "faults"
+    if wl.get("foreign"):
+        return "foreign"
     return "steady" if wl["shape"] == "steady" else "repeat"
 
 
@@ -110,6 +119,8 @@ def sig_prefix(wl, threads):
     inj = ""
     if wl.get("inject"):
         inj = "/" + "+".join(sorted({syslog.NAME.get(int(i.split(":")[3]), "sys") + "-fails" for i in wl["inject"]}))
+    if wl.get("foreign"):
+        inj += "/foreign-mappings"
     return "C04/%s%s/%s" % (wl["shape"], inj, "threads" if threads > 1 else "single-thread")
 
 
@@ -159,10 +170,14 @@ def run(ck, replay=None):
             else:
                 argv = [harn, "fp", str(wl["seed"]), str(wl["reps"]), "steady", str(st["chunk"]), str(st["mix"]), wl["order"],
                         st["primer"], str(st["delta"]), str(st.get("align", 8))]
+            if wl.get("foreign"):
+                argv.append("foreign=" + wl["foreign"])
         elif wl["runner"] == "probe":
             argv = [probe, wl["shape"], wl["order"], str(wl["threads"]), str(wl["reps"]), str(wl["seed"]), mode]
         else:
             argv = [harn, "fp", str(wl["seed"]), str(wl["reps"]), wl["shape"], wl["order"]]
+        if wl.get("foreign"):
+            argv.append("foreign=" + wl["foreign"])
         if wl.get("inject"):
             wl["log"] = os.path.join(tmp, "sysmon-%d.log" % len(jobs))
             argv = syslog.sysmon_cmd(wl["log"], argv, injects=wl["inject"], timeout_s=300 if quick else 3000,
@@ -229,6 +244,30 @@ def run(ck, replay=None):
                                       [(c, t, o) for c in (64, 272, 1024, 4112) for t in (2, 4, 8) for o in ORDERS]):
             st = dict(chunk=chunk, mix=0, primer="dv", delta=0)
             add(base("probe", "steady", order, threads, "own", 2 if quick else 6, rng.randrange(1, 1 << 30), steady=st))
+        # ---- family 4: foreign mappings between heap growths (non-adjacent segments) --------------------
+        fplan = []
+        for shape, cyc in (("trio", 800), ("small", 600), ("aladder", 300), ("round", 200), ("mixed", 300), ("large", 80)):
+            for oi, order in enumerate(ORDERS):
+                if quick and shape not in ("trio", "small") and oi != (len(fplan) % 3):
+                    continue
+                fplan.append((shape, order, "keep16", cyc if quick else min(2000, cyc * 3)))
+        for shape, cyc in (("trio", 300), ("round", 200), ("mixed", 300), ("large", 80), ("ladder", 100)):
+            for pi, pol in enumerate(FOREIGN_POLICIES[1:]):
+                fplan.append((shape, ORDERS[(pi + len(shape)) % 3], pol, cyc if quick else cyc * 3))
+        for shape, order, pol, cyc in fplan:
+            seed = rng.randrange(1, 1 << 30)
+            for runner in ("probe", "harness"):
+                add(base(runner, shape, order, 1, "own", cyc, seed, foreign=pol))
+        # threads (their 2 MiB stacks are foreign mappings of their own) on top of ours
+        for threads, mode, order in ((2, "own", "random"), (4, "handoff", "fifo")) if quick else \
+                [(t, m, o) for t in (2, 4, 8) for m in ("own", "handoff") for o in ORDERS]:
+            add(base("probe", "trio", order, threads, mode, 300 if quick else 1000, rng.randrange(1, 1 << 30), foreign="keep16"))
+        # a foreign mapping at every sample point of a steady phase (large hot chunks, realloc churn)
+        for chunk, pol in ((16384, "keep16"), (65536, "ring")) if quick else [(c, p) for c in (4112, 16384, 65536) for p in FOREIGN_POLICIES]:
+            st = dict(chunk=chunk, mix=2, primer="none", delta=0, align=8)
+            seed = rng.randrange(1, 1 << 30)
+            for runner in ("probe", "harness"):
+                add(base(runner, "steady", "random", 1, "own", 3 if quick else 10, seed, steady=st, foreign=pol))
         # ---- family 3: mremap / munmap made to fail by sysmon while the allocator trims / releases ----
         def inj(nr, k, ret, count):
             return "4:*:1:%d:%d:%d:%d" % (syslog.NR[nr], k, ret, count)
@@ -294,7 +333,7 @@ def run(ck, replay=None):
         if summ is None or len(held) < need or len(held) <= W + 2:
             ck.note_inconclusive("%s: incomplete output (%d of %d samples)" % (label, len(held), need))
             continue
-        peak_live, churned, calls, primed = summ
+        peak_live, churned, calls, primed, maxseg, nforeign = summ
         if failed:
             # an allocation failed (null / misaligned / spawn error): the workload was not the intended one
             # (legitimate when the monitor fails munmap/mremap? no: neither is on an allocation path that may fail)
@@ -327,6 +366,17 @@ def run(ck, replay=None):
         ck.count("workloads_%s_%s" % (fam, wl["runner"]), 1)
         if wl["threads"] > 1:
             ck.count("samples_multi_threaded", len(held))
+        if wl.get("foreign"):
+            trimmed_cycles = sum(1 for x in held[W:] if x < S)
+            ck.count("foreign_mappings_made", nforeign)
+            ck.count("foreign_repetitions_ending_trimmed_and_regrown_elsewhere", trimmed_cycles)
+            key = "max_heap_segments_private_dlmalloc" if wl["runner"] == "harness" else "max_anonymous_rw_vmas_probe"
+            ck.extra[key] = max(ck.extra.get(key, 0), maxseg)
+            segb = "1" if maxseg <= 1 else "2" if maxseg == 2 else "3-4" if maxseg <= 4 else "5-8" if maxseg <= 8 else "9+"
+            if maxseg >= 2:
+                ck.count("foreign_runs_with_a_multi_segment_heap")
+            ck.note_distinct("foreign/%s/%s/%s/%s/t%d/segments-%s/%s" % (wl["runner"], wl["shape"], wl["foreign"], wl["order"], wl["threads"], segb,
+                                                                        "cycling" if trimmed_cycles * 2 > len(held) else "settles"))
         if st:
             ck.count("steady_steps", wl["reps"] * wl["threads"] * max(20000, (10 << 20) // st["chunk"]))
             if st["primer"] != "none":
@@ -337,7 +387,9 @@ def run(ck, replay=None):
             ck.count("monitor_failed_%s_calls" % nm, c)
         plateau = "flat" if len(set(held[W:])) == 1 else ("within-S" if max(held[W:]) - min(held[W:]) <= S else "varies")
         trimmed = "retains" if min(held[W:]) > S else "trims"
-        if st:
+        if wl.get("foreign"):
+            pass
+        elif st:
             cls = "smallbin" if st["chunk"] < 256 else "treebin"
             ck.note_distinct("steady/%s/%s/%s%+d/%s/mix%d/a%d/t%d/%s/%s" % (wl["runner"], cls, st["primer"], st["delta"], wl["order"], st["mix"],
                                                                            st.get("align", 8), wl["threads"], "primed" if primed else "unprimed", plateau))
@@ -369,9 +421,12 @@ def run(ck, replay=None):
               "steady runs enough steps for one lost chunk per step to add up to 10 MiB")
     ck.assume("steady primers are black-box: the prepared block and its guard must be adjacent by address and the carve must return the "
               "prepared block's address, otherwise the heap's leftovers are kept and the attempt repeated; a primer that never lands is counted, not judged")
+    ck.assume("foreign mappings are PROT_NONE | MAP_NORESERVE regions made by the harness itself with raw mmap (rusl / libc) and subtracted "
+              "exactly; the probe reports the number of anonymous rw VMAs in /proc/self/maps, the private allocator verif_stats().segments")
     ck.assume("failures of mremap/munmap are produced by sysmon (the call is not executed and returns -ENOMEM/-EFAULT/-EINVAL), for all calls or "
               "the k-th call after the workload's BEGIN marker; munmap is not failed in threaded probes (threads unmap their own stacks with it)")
-    return ("three families: (repeat) shape {small, large, mixed, over-aligned, realloc ladder, round, realloc ladder on 32..4096-aligned blocks, "
+    return ("four families: (foreign) the repeat shapes with a foreign PROT_NONE mapping before every repetition {16 MiB kept, 4 KiB-16 MiB "
+            "kept / ring / transient} and a final trim-forcing block, 80-2000 repetitions; (repeat) shape {small, large, mixed, over-aligned, realloc ladder, round, realloc ladder on 32..4096-aligned blocks, "
             "Vec of over-aligned records, shrink-and-keep (raw realloc and Vec)} x free order {LIFO, FIFO, pseudo-random "
             "reseeded per repetition} x {1 thread; 2-8 threads freeing their own blocks or handing them to main}, N repetitions (quick 120-3000, "
             "thorough up to 60000); (steady) hot chunk size over small-bin and tree-bin classes x primer {remainder -> dv, -> bin, none} x "
